@@ -28,6 +28,7 @@ import (
 //	X <id> <reason>                                               inconclusive (harness error)
 //	P <id> <panic site>                                           the real code panicked (C05's business)
 //	K <id> <json>                                                 … while capturing an event, before Process: replay (C01's business)
+//	L <id> <json> / Q <id> <why> / PH <id> …                      pipeline stream (-pipeline N, see pipeline.go)
 
 // keyIDs numbers the (kind, name) pairs for the Lean model. 0 is reserved for the configured special name of a
 // kind — the two names the handler's objectFilters are keyed with (`gatewayPodConfig.Namespace/ServiceName` for
@@ -419,6 +420,7 @@ func Run(args []string) int {
 	shrinkBudget := fs.Int("shrink", 400, "runs spent on shrinking one failing history")
 	maxFail := fs.Int("maxfail", 12, "stop after this many failing histories")
 	emitDir := fs.String("emit-directed", "", "write the directed histories as replay files into this directory and exit")
+	pipeN := fs.Int("pipeline", 0, "run this many in-fragment histories of the pipeline stream instead (see pipeline.go)")
 	nnSpec := fs.String("nnfilter", DefaultNNFilterSpec, "namespaced-name filters Kind|name|guard|expr;… (from the translator)")
 	if err := fs.Parse(args); err != nil {
 		return 2
@@ -445,6 +447,10 @@ func Run(args []string) int {
 	}
 	if nnFilters, err = parseNNFilterSpec(*nnSpec, controlConfig); err != nil {
 		emit("X 0 nnfilter-table: %v", err)
+		return 0
+	}
+	if *pipeN > 0 {
+		runPipeline(*seed, *pipeN, *maxOps, ws, emit)
 		return 0
 	}
 	rn := &Runner{Watches: ws, CheckEvery: true, Samples: 48}
